@@ -7,6 +7,10 @@ CHECKS = {
          "note": REALS + " The literature table is part of the trusted base."},
  "C07": {"text": "The real exact non-singlet kernels (orders 1-4) and the dispatcher's exact branch are executed on symbolic gamma_k, beta_k, a0, a1 with forward-mode AD; z3 decides dE/da1 = gamma(a1)/beta(a1) E and E(a0,a0)=1 on every path (both signs of the NNLO discriminant, both N3LO root configurations, concrete nf through eko.beta), and for the fixed-alpha_em QED kernel additionally the shifted beta0, the alpha_em-contracted gammas and the pure-QED scale factor (AD in mu2_to); exact() is the ordered product of step kernels for 1-2 steps.",
          "note": REALS + " N3LO with symbolic betas stubs roots() by symbolic roots + Vieta (argument-checked; roots() itself is decided in C13). gamma real symbols: polynomial identities extend to complex gamma."},
+ "C08": {"text": "The approximate kernels are executed on truncated series (a0=lam*alpha0, a1=lam*alpha1, tracked precision) with AD in alpha1; z3 decides that every coefficient of lam^0..lam^(n-1) of lam*(dE/da1 - gamma/beta E) and of E(a0,a0)-1 vanishes: non-singlet truncated / ordered-truncated / expanded at orders 2-4 with symbolic gamma_k, beta_k; singlet truncated and perturbative (exact and expanded fill) with fully symbolic non-commuting 2x2 gamma at order 2 (quick) and 3 (thorough), order 4 with diagonal gamma_0 (thorough); decompose methods in the commuting limit.",
+         "note": REALS + " E~-E=O(a^n) follows from the residual bound by variation of constants (stated in the evidence). Order-4 singlet with non-diagonal gamma_0 is outside the bound."},
+ "C23": {"text": "exp_matrix_2D is executed on a symbolic real 2x2 (both signs of the discriminant, decided by z3) and a symbolic complex 2x2 (8 real symbols) scaled by the AD seed t; z3 decides the characteristic equation, P_iP_j=delta_ij P_i, sum P_i=1, M=sum lambda_i P_i, dP/dt=0 and d/dt exp = M exp. exp_matrix: numpy.linalg.eig is stubbed by its contract (symbolic v,w, M:=v diag(w) v^-1, argument-checked) and the post-processing is decided for dims 2-3 (4 thorough).",
+         "note": REALS + " LAPACK itself, conditioning and defective matrices are outside the claim."},
 }
 NOT_APPLICABLE = {
  "C03": "Schedule independence of multiprocessing.Pool over QUADPACK integrations: process scheduling and Fortran quadrature have no encodable semantics; nothing symbolic remains once they are stubbed.",
